@@ -1473,6 +1473,239 @@ Definition v_api_evpn (x : api_evpn) : val :=
       VL [VI 5; v_api_rd0 d; v_api_esi esi; VN etag; VNs pfx; VN plen; VNs gw; VN label]
   end.
 
+(* ------------------------------------------------------------------ *)
+(* Flowspec NLRI (packet/src/flowspec.rs; flowspec_v4/v6_to_rules, rules_to_v4/v6_components,
+   items_to_ops and the FlowSpec / VpnFlowSpec arms of net_from_api)                       *)
+Inductive fs_comp : Type :=
+| FsPfx (t addr mask off : N)          (* t = 1 destination, 2 source; off is the IPv6 offset (0 for IPv4) *)
+| FsOps (t : N) (ops : list (N * N)).  (* numeric / bitmask component: operators (bits, value) *)
+
+(* v6: the IPv6 families; d: the route distinguisher of the VPN families *)
+Inductive fs_nlri : Type := FsN (v6 : bool) (d : option rd) (comps : list fs_comp).
+
+Inductive api_fs_rule : Type :=
+| FRMissing
+| FRPrefix (t plen : N) (s : list N) (off : N)
+| FRComp (t : N) (items : list (N * N))
+| FRMac.
+
+Inductive api_fs : Type :=
+| AFs (rules : list api_fs_rule)
+| AFsVpn (d : api_rd) (rules : list api_fs_rule).
+
+(* Op::len_order: the value travels in 1, 2, 4 or 8 octets *)
+Definition op_octets (v : N) : N :=
+  if v <=? 255 then 1 else if v <=? 65535 then 2 else if v <=? 4294967295 then 4 else 8.
+
+Definition fs_comp_len (v6 : bool) (c : fs_comp) : N :=
+  match c with
+  | FsPfx _ _ m _ => (if v6 then 3 else 2) + (m + 7) / 8
+  | FsOps _ ops => 1 + fold_right (fun o acc => 1 + op_octets (snd o) + acc) 0 ops
+  end.
+
+Definition fs_body_len (n : fs_nlri) : N :=
+  match n with
+  | FsN v6 d comps => (match d with Some _ => 8 | None => 0 end) + fold_right (fun c acc => fs_comp_len v6 c + acc) 0 comps
+  end.
+
+(* the operator bits the decoder keeps: comparison bits 0..3 and AND (bit 6); bits 4,5
+   (length) and 7 (end of list) are framing *)
+Definition op_core_bits (b : N) : N := b mod 16 + ((b / 64) mod 2) * 64.
+
+Fixpoint ops_from_items (items : list (N * N)) : option (list (N * N)) :=
+  match items with
+  | [] => Some []
+  | (op, v) :: r =>
+      if 255 <? op then None
+      else match ops_from_items r with
+           | Some ops => Some ((match r with [] => op_core_bits op + 128 | _ => op_core_bits op end, v) :: ops)
+           | None => None
+           end
+  end.
+
+Section Flowspec.
+  Variable v6p : N -> list N.
+  Variable v6r : list N -> option N.
+
+  Definition fs_comp_to_api (v6 : bool) (c : fs_comp) : api_fs_rule :=
+    match c with
+    | FsPfx t a m off => FRPrefix t m (if v6 then v6p a else ip4_to_string a) (if v6 then off else 0)
+    | FsOps t ops => FRComp t ops
+    end.
+
+  Definition fs_to_api (n : fs_nlri) : api_fs :=
+    match n with
+    | FsN v6 None comps => AFs (map (fs_comp_to_api v6) comps)
+    | FsN v6 (Some d) comps => AFsVpn (rd_to_api d) (map (fs_comp_to_api v6) comps)
+    end.
+
+  Definition fs_rule_from_api (v6 : bool) (r : api_fs_rule) : option fs_comp :=
+    match r with
+    | FRMissing | FRMac => None
+    | FRPrefix t plen s off =>
+        match (if v6 then v6r s else ip4_of_string s) with
+        | None => None
+        | Some a =>
+            let w := if v6 then 16 else 4 in
+            if (8 * w <? plen) || negb (octets_ok w a plen) || (v6 && (255 <? off)) || negb ((t =? 1) || (t =? 2))
+            then None else Some (FsPfx t a plen (if v6 then off else 0))
+        end
+    | FRComp t items =>
+        match items with
+        | [] => None
+        | _ =>
+            match ops_from_items items with
+            | None => None
+            | Some ops => if (3 <=? t) && (t <=? (if v6 then 13 else 12)) then Some (FsOps t ops) else None
+            end
+        end
+    end.
+
+  Fixpoint fs_rules_from_api (v6 : bool) (rs : list api_fs_rule) : option (list fs_comp) :=
+    match rs with
+    | [] => Some []
+    | r :: rest =>
+        match fs_rule_from_api v6 r, fs_rules_from_api v6 rest with
+        | Some c, Some cs => Some (c :: cs)
+        | _, _ => None
+        end
+    end.
+
+  (* family = afi * 65536 + safi: 1/133, 2/133 plain; 1/134, 2/134 VPN *)
+  Definition fs_from_api (family : N) (x : api_fs) : option fs_nlri :=
+    let checked (n : fs_nlri) := if 4095 <? fs_body_len n then None else Some n in
+    match x with
+    | AFs rules =>
+        if family =? 65669 then match fs_rules_from_api false rules with Some cs => checked (FsN false None cs) | None => None end
+        else if family =? 131205 then match fs_rules_from_api true rules with Some cs => checked (FsN true None cs) | None => None end
+        else None
+    | AFsVpn d rules =>
+        match rd_from_api d with
+        | None => None
+        | Some d' =>
+            if family =? 65670 then match fs_rules_from_api false rules with Some cs => checked (FsN false (Some d') cs) | None => None end
+            else if family =? 131206 then match fs_rules_from_api true rules with Some cs => checked (FsN true (Some d') cs) | None => None end
+            else None
+        end
+    end.
+End Flowspec.
+
+(* ------------------------------------------------------------------ *)
+(* SR Policy NLRI and Route Target Constraint NLRI                        *)
+Inductive srp : Type := SrP (v6 : bool) (dist color endpoint : N).
+Inductive api_srp : Type := ASrP (length dist color : N) (endpoint : list N).
+
+Definition srp_to_api (n : srp) : api_srp :=
+  match n with SrP v6 d c e => ASrP (if v6 then 192 else 96) d c (to_bytes (if v6 then 16 else 4) e) end.
+
+Definition srp_from_api (x : api_srp) : option srp :=
+  match x with
+  | ASrP _ d c e =>
+      if Nat.eqb (length e) 4 then Some (SrP false d c (of_bytes e))
+      else if Nat.eqb (length e) 16 then Some (SrP true d c (of_bytes e))
+      else None
+  end.
+
+Inductive rtc : Type := RtcWild | RtcAs (asn : N) | RtcExact (asn : N) (rt : list N).
+
+Inductive api_rt : Type :=
+| RtMissing                                  (* RouteTarget without its oneof *)
+| Rt2 (tr : bool) (sub asn la : N)
+| RtIp (tr : bool) (sub : N) (addr : list N) (la : N)
+| Rt4 (tr : bool) (sub asn la : N).
+
+Inductive api_rtc : Type := ARtc (asn : N) (rt : option api_rt).
+
+Definition rt_to_api (rt : list N) : api_rt :=
+  match rt with
+  | [t; s; b2; b3; b4; b5; b6; b7] =>
+      if t =? 0 then Rt2 true s (of_be16 b2 b3) (of_be32 b4 b5 b6 b7)
+      else if t =? 1 then RtIp true s (ip4_to_string (of_be32 b2 b3 b4 b5)) (of_be16 b6 b7)
+      else Rt4 true s (of_be32 b2 b3 b4 b5) (of_be16 b6 b7)
+  | _ => RtMissing
+  end.
+
+Definition rt_from_api (x : api_rt) : option (list N) :=
+  match x with
+  | RtMissing => None
+  | Rt2 _ sub asn la => if negb (sub =? 2) || (65535 <? asn) then None else Some (0 :: 2 :: be16 asn ++ be32 la)
+  | RtIp _ sub addr la =>
+      if negb (sub =? 2) || (65535 <? la) then None
+      else match ip4_of_string addr with Some a => Some (1 :: 2 :: be32 a ++ be16 la) | None => None end
+  | Rt4 _ sub asn la => if negb (sub =? 2) || (65535 <? la) then None else Some (2 :: 2 :: be32 asn ++ be16 la)
+  end.
+
+Definition rtc_to_api (n : rtc) : api_rtc :=
+  match n with
+  | RtcWild => ARtc 0 None
+  | RtcAs a => ARtc a None
+  | RtcExact a rt => ARtc a (Some (rt_to_api rt))
+  end.
+
+Definition rtc_from_api (x : api_rtc) : option rtc :=
+  match x with
+  | ARtc a None => Some (if a =? 0 then RtcWild else RtcAs a)
+  | ARtc a (Some rt) => match rt_from_api rt with Some b => Some (RtcExact a b) | None => None end
+  end.
+
+Definition v_api_fs_rule (r : api_fs_rule) : val :=
+  match r with
+  | FRMissing => VL [VI 0]
+  | FRPrefix t m s off => VL [VI 1; VN t; VN m; VNs s; VN off]
+  | FRComp t items => VL [VI 2; VN t; VList (fun o => VL [VN (fst o); VN (snd o)]) items]
+  | FRMac => VL [VI 3]
+  end.
+
+Definition v_api_fs (x : api_fs) : val :=
+  match x with
+  | AFs rules => VL [VI 10; VList v_api_fs_rule rules]
+  | AFsVpn d rules => VL [VI 11; v_api_rd0 d; VList v_api_fs_rule rules]
+  end.
+
+Definition v_api_rt (x : option api_rt) : val :=
+  match x with
+  | None => VL []
+  | Some RtMissing => VL [VI 0]
+  | Some (Rt2 tr s a l) => VL [VI 1; VB tr; VN s; VN a; VN l]
+  | Some (RtIp tr s a l) => VL [VI 2; VB tr; VN s; VNs a; VN l]
+  | Some (Rt4 tr s a l) => VL [VI 3; VB tr; VN s; VN a; VN l]
+  end.
+
+(* kind 8, modelled families.  The observation compared is [accepted; decodes back; relisted; API form
+   listed for the accepted value] (what the harness prints in positions 0, 3, 4, 5). *)
+Definition run_api_fs_case (family : N) (x : api_fs) : val :=
+  match fs_from_api v6_parse family x with
+  | None => VL [VI 0]
+  | Some n =>
+      let y := fs_to_api v6_print n in
+      VL [VI 1; VI 1; VI (match fs_from_api v6_parse family y with Some n' => 0 | None => 2 end); v_api_fs y]
+  end.
+
+Definition srp_family_ok (n : srp) (family : N) : bool :=
+  match n with SrP v6 _ _ _ => family =? (if v6 then 131145 else 65609) end.
+
+Definition run_api_srp_case (family : N) (x : api_srp) : val :=
+  match srp_from_api x with
+  | None => VL [VI 0]
+  | Some n =>
+      if negb (srp_family_ok n family) then VL [VI 0] else
+      match srp_to_api n with
+      | ASrP l d c e => VL [VI 1; VI 1; VI 0; VL [VI 12; VN l; VN d; VN c; VNs e]]
+      end
+  end.
+
+Definition run_api_rtc_case (family : N) (x : api_rtc) : val :=
+  match rtc_from_api x with
+  | None => VL [VI 0]
+  | Some n =>
+      if negb (family =? 65668) then VL [VI 0] else
+      match rtc_to_api n with
+      | ARtc a rt =>
+          VL [VI 1; VI 1; VI (match rtc_from_api (rtc_to_api n) with Some n' => 0 | None => 2 end);
+              VL [VI 13; VN a; v_api_rt rt]]
+      end
+  end.
+
 (* kind 6: an API EVPN message (the last element: the accepted route survives its own
    wire encoding, which the harness checks by decoding Nlri::encode's bytes);
    kind 7: an internal EVPN route *)
